@@ -25,5 +25,5 @@ Check C02_safe_state_recovers : forall s E P img, Safe s E P -> cut s img -> exi
 Check C02_error_at_log_write_is_step : forall c v b, reach c -> c_v c = Some v -> accepted v (OpWrite b) -> reach (mkCfg (c_fs c) (Some (fault_next v (OpWrite b))) (hist_next v (OpWrite b) false (c_hist c))).
 Check C02_error_at_flush_start_is_step : forall c v, reach c -> c_v c = Some v -> reach (mkCfg (c_fs c) (Some v) (c_hist c)).
 Check C02_same_relb_sound : forall s s', same_relb s s' = true -> same_rel s s'.
-Check C02_driver_error_state : forall x o, x_v (xnext_err x o) = fault_next (x_v x) o.
+Check C02_driver_error_state : forall x o hit_mani, x_v (xnext_err x o hit_mani) = fault_next (x_v x) o.
 Check C02_driver_programs : forall x s o p flag, xop_prog x s o = Some (p, flag) -> (p, flag) = op_prog (x_v x) s o \/ (p, flag) = ([], false).
